@@ -275,7 +275,18 @@ async fn http1_conn(mut stream: SimStream, col: Arc<Collector>, host: HostCfg, c
             Decision::Status(s) => s,
             _ => 200,
         };
-        let resp = format!("HTTP/1.1 {status} Sim\r\ncontent-length: 0\r\n\r\n");
+        // real collectors answer with a body (an ExportServiceResponse / an error text) more often than not
+        let body: &str = if !col.sched.lock().choices.chance(2, 3) {
+            ""
+        } else if status == 200 {
+            "{\"partialSuccess\":{}}"
+        } else {
+            "simulated collector failure: try again later"
+        };
+        if !body.is_empty() {
+            *col.fired.lock().unwrap().entry("response_with_body").or_insert(0) += 1;
+        }
+        let resp = format!("HTTP/1.1 {status} Sim\r\ncontent-type: application/json\r\ncontent-length: {}\r\n\r\n{body}", body.len());
         let ok = stream.write_all(resp.as_bytes()).await.is_ok();
         entry.acked = ok && status == 200;
         entry.done_at = Some(col.sched.now());
@@ -416,8 +427,13 @@ async fn grpc_stream(
         .header("content-type", "application/grpc")
         .body(())
         .unwrap();
+    let with_message = col.sched.lock().choices.chance(2, 3);
     let ok = match respond.send_response(response, false) {
         Ok(mut send) => {
+            if with_message {
+                // an (empty) ExportServiceResponse message: 5-byte gRPC frame header
+                let _ = send.send_data(bytes::Bytes::from_static(&[0, 0, 0, 0, 0]), false);
+            }
             let mut trailers = http::HeaderMap::new();
             trailers.insert("grpc-status", http::HeaderValue::from_str(&grpc_status.to_string()).unwrap());
             if grpc_status != 0 {
@@ -921,7 +937,9 @@ impl Engine for OtlpSim {
         let cl = clog.lock().unwrap();
         let fired = col.fired.lock().unwrap().clone();
         for (k, v) in &fired {
-            if *k != "ack" {
+            if *k == "response_with_body" {
+                out.probes.insert(k, *v);
+            } else if *k != "ack" {
                 out.faults.insert(k, *v);
             }
         }
